@@ -22,10 +22,21 @@
 (* updateVerifyState / StoreLogs / triggerVerify / verify / checksumLog    *)
 (* statement by statement.                                                 *)
 (*                                                                         *)
-(* BUG_NoResetOnDelete = TRUE is what the pinned code does (DESIGN 6, F11):*)
-(* DeleteRange is a plain delegation and the running sum survives a        *)
-(* truncation.  FALSE is the repaired design: a successful DeleteRange     *)
-(* whose range reaches into the summed indexes restarts the sum.           *)
+(* Two deviations of the pinned code from the properties are modelled      *)
+(* behind boolean constants, so that TLC produces the counterexamples with *)
+(* TRUE and the repaired design passes with FALSE:                         *)
+(*  BUG_NoResetOnDelete (DESIGN 6, F11): DeleteRange is a plain delegation *)
+(*    and the running sum survives a truncation -> false "in-flight        *)
+(*    corruption" after a tail truncation + re-append or after a snapshot  *)
+(*    install.  Repaired: a DeleteRange that reaches into the summed       *)
+(*    indexes (max >= sumStartIdx) restarts the sum.                       *)
+(*  BUG_LacksByFirstOnly (found by the C16 check): verify() recognises "the*)
+(*    node lacks part of the range" only by FirstIndex() > Range.Start; an *)
+(*    emptied or tail-truncated log yields a read error, not               *)
+(*    ErrRangeMismatch.  Repaired: every missing index is a range mismatch.*)
+(* `bug` (chosen in Init from BugModes, constant along a behaviour) selects*)
+(* whether the BUG_ constants apply, so that one TLC run explores both the *)
+(* model of the pinned code (bug = TRUE) and the repaired design (FALSE).  *)
 (*                                                                         *)
 (* `hist` is the scenario channel: the list of actions with arguments that *)
 (* harness/cmd/verifreplay executes on real verifier.LogStore instances.   *)
